@@ -61,7 +61,13 @@ def _leaf_params(sel):
     t = T[sel["template"]]
     out = []
     for k in range(len(sel["steps"])):
+        if "leaves_from" in sel["steps"][k]:
+            continue  # this step re-uses the state of an earlier step (same symbolic values)
+        seen = set()
         for (mod, var, _typ, cone) in t.leaves:
+            if var in seen:
+                continue  # the same variable name in a copied module shares the value ("tie")
+            seen.add(var)
             if (not cone and k > 0) or var in sel.get("fixed", {}):
                 continue  # variables of non-accepted / unread code keep one value over the history; pinned leaves are concrete
             lt = sel.get("leaf_type", {}).get(var, "int")
@@ -70,6 +76,10 @@ def _leaf_params(sel):
                 out.append((n, typ, pre.format(n) if pre else None))
         if sel.get("nargs") and "n" not in sel.get("fixed", {}):
             n = "n%d" % k
+            out.append((n, "int", "-2**31 <= %s < 2**31" % n))
+    for k, step in enumerate(sel["steps"]):
+        for var in step.get("vary", []):
+            n = "%s_v%d" % (var, k)
             out.append((n, "int", "-2**31 <= %s < 2**31" % n))
     return out
 
@@ -96,11 +106,15 @@ def run_history(sel, a, on_step=None):
         if step.get("restart"):
             w.start_process()
         w.set_variants(step.get("variants") or {})
+        ks = step.get("leaves_from", k)
         for (mod, var, _typ, cone) in t.leaves:
-            w.set_leaf(mod, var, _leaf_value(sel, var, k if cone else 0, a))
+            if var in step.get("vary", []):
+                w.set_leaf(mod, var, a["%s_v%d" % (var, k)])  # an out-of-cone variable deliberately changed at this step
+            else:
+                w.set_leaf(mod, var, _leaf_value(sel, var, ks if cone else 0, a))
         args = ()
         if sel.get("nargs"):
-            args = (sel["fixed"]["n"][k],) if "n" in sel.get("fixed", {}) else (a["n%d" % k],)
+            args = (sel["fixed"]["n"][ks],) if "n" in sel.get("fixed", {}) else (a["n%d" % ks],)
         style = step.get("style", "call")
         r = w.run_real(style, args, entry=tuple(step["entry"]) if step.get("entry") else None, path=step.get("path"))
         p = w.run_plain(args, entry=tuple(step["entry"]) if step.get("entry") else None, path=step.get("path"))
@@ -110,7 +124,8 @@ def run_history(sel, a, on_step=None):
                 return (False, res, w)
         if r[0] != "ok":
             return (False, "step %d: dds raised %r" % (k, r[1:]), w)
-        if r[1] != p[1]:
+        if r[1] != p[1] and not step.get("no_value_check"):
+            # (steps that edit NON-accepted code are exempt: dds documents that it does not track it)
             return (False, "step %d: dds returned %r, plain execution returns %r" % (k, r[1], p[1]), w)
     return (True, "", w)
 
